@@ -159,6 +159,7 @@ class Inliner:
         self.done: set[int] = set()
         self.active: set[str] = set()
         self.count = 0
+        self.ntemp = 0
         self.sites: list[tuple[str, str]] = []
 
     # ------------------------------------------------------------------ eligibility
@@ -291,8 +292,6 @@ class Inliner:
         body = _body(g.node)
         if not body or sum(1 for s in body for n in ast.walk(s) if isinstance(n, ast.stmt)) > MAX_STMTS:
             return None
-        if _return_in_loop(body):
-            return None
         b = self.bind(g, call, recv, static, clsm, _all_names(f.node))
         if b is None:
             return None
@@ -316,40 +315,92 @@ class Inliner:
             for c in s.cases:
                 c.body = self.block(f, c.body, depth)
         # 1. the call is the whole value of a simple statement
-        val = getattr(s, 'value', None) if isinstance(s, (ast.Assign, ast.AnnAssign, ast.Return, ast.Expr)) else None
-        if isinstance(val, ast.Call):
-            p = self.prepared(f, val, depth)
-            if p is not None:
-                g, body, pre = p
-                rets = _returns(body)
-                tail_only = len(rets) <= 1 and (not rets or body[-1] is rets[0])
-                res = None
-                if isinstance(s, ast.Return):
-                    res = pre + body
-                    if not rets or not isinstance(body[-1], ast.Return):
-                        res = res + [ast.Return(value=None)]
-                elif tail_only:
-                    res = pre + (body[:-1] if rets else body)
-                    e = rets[0].value if rets and rets[0].value is not None else ast.Constant(value=None)
-                    res = res + [self.rebind(s, e)]
-                elif (structured := self.returns_to_branches(body, s)) is not None:
-                    res = pre + structured
-                else:
-                    last_is_return = isinstance(body[-1], ast.Return)
-                    body = self.replace_returns(body, s)
-                    if last_is_return:
-                        body = body[:-1]       # the trailing `break` of the final return: the loop ends anyway
-                    once = ast.For(target=ast.Name(id='_once', ctx=ast.Store()),
-                                   iter=ast.Tuple(elts=[ast.Constant(value=0)], ctx=ast.Load()),
-                                   body=body + ([] if last_is_return else [self.rebind(s, ast.Constant(value=None))]),
-                                   orelse=[])
-                    res = pre + [once]
-                self.count += 1
-                self.sites.append((f.fq, g.fq))
-                return _setloc([ast.fix_missing_locations(x) for x in res], line, g.fq)
+        res = self.whole_value(f, s, depth)
+        if res is not None:
+            return res
         # 2. calls of expression-bodied helpers anywhere in the statement's own expressions
         self.subst_expr_calls(f, s, depth)
-        return [s]
+        # 3. calls of multi-statement helpers nested in the statement's own expressions: hoisted in front of it
+        #    (`if _pred(x):` -> `<body of _pred>; _inl1 = <returned>; if _inl1:`); not for while-tests
+        hoisted = []
+        if isinstance(s, (ast.If, ast.Assign, ast.AugAssign, ast.AnnAssign, ast.Expr, ast.Return, ast.With, ast.For,
+                          ast.Raise, ast.Assert)):
+            for fld, value in list(ast.iter_fields(s)):
+                if fld in ('body', 'orelse', 'finalbody', 'handlers', 'cases', 'targets', 'target'):
+                    continue
+                for root in (value if isinstance(value, list) else [value]):
+                    if not isinstance(root, ast.AST):
+                        continue
+                    for call in self.own_calls(root):
+                        if self.callee_of(f, call) is None:
+                            continue
+                        self.ntemp += 1
+                        tmp = f'_inl{self.ntemp}'
+                        synthetic = ast.Assign(targets=[ast.Name(id=tmp, ctx=ast.Store())], value=copy.deepcopy(call),
+                                               lineno=line)
+                        block = self.whole_value(f, synthetic, depth)
+                        if block is None:
+                            continue        # not inlinable after all
+                        hoisted.extend(block)
+                        # turn the call node into a read of the temporary (in place)
+                        call.__class__ = ast.Name
+                        call.__dict__.clear()
+                        call.id, call.ctx, call.lineno, call.col_offset = tmp, ast.Load(), line, 0
+                        call.end_lineno, call.end_col_offset = line, 0
+        return hoisted + [s]
+
+    def own_calls(self, root):
+        """Call nodes of an expression in evaluation-ish order, not entering lambdas / comprehensions"""
+        out = []
+
+        def rec(n):
+            if isinstance(n, (ast.Lambda, ast.ListComp, ast.SetComp, ast.DictComp, ast.GeneratorExp)):
+                return
+            for c in ast.iter_child_nodes(n):
+                rec(c)
+            if isinstance(n, ast.Call):
+                out.append(n)
+        rec(root)
+        return out
+
+    def whole_value(self, f, s, depth):
+        """statement s with the helper call that is its whole value expanded, or None"""
+        line = getattr(s, 'lineno', 0)
+        val = getattr(s, 'value', None) if isinstance(s, (ast.Assign, ast.AnnAssign, ast.Return, ast.Expr)) else None
+        if not isinstance(val, ast.Call):
+            return None
+        p = self.prepared(f, val, depth)
+        if p is not None:
+            g, body, pre = p
+            rets = _returns(body)
+            tail_only = len(rets) <= 1 and (not rets or body[-1] is rets[0])
+            res = None
+            if isinstance(s, ast.Return):
+                res = pre + body
+                if not rets or not isinstance(body[-1], ast.Return):
+                    res = res + [ast.Return(value=None)]
+            elif tail_only:
+                res = pre + (body[:-1] if rets else body)
+                e = rets[0].value if rets and rets[0].value is not None else ast.Constant(value=None)
+                res = res + [self.rebind(s, e)]
+            elif (structured := self.returns_to_branches(body, s)) is not None:
+                res = pre + structured
+            elif _return_in_loop(body):
+                return None     # a `break` would only leave the callee's own loop
+            else:
+                last_is_return = isinstance(body[-1], ast.Return)
+                body = self.replace_returns(body, s)
+                if last_is_return:
+                    body = body[:-1]       # the trailing `break` of the final return: the loop ends anyway
+                once = ast.For(target=ast.Name(id='_once', ctx=ast.Store()),
+                               iter=ast.Tuple(elts=[ast.Constant(value=0)], ctx=ast.Load()),
+                               body=body + ([] if last_is_return else [self.rebind(s, ast.Constant(value=None))]),
+                               orelse=[])
+                res = pre + [once]
+            self.count += 1
+            self.sites.append((f.fq, g.fq))
+            return _setloc([ast.fix_missing_locations(x) for x in res], line, g.fq)
+        return None
 
     def rebind(self, s, e):
         if isinstance(s, ast.Assign):
@@ -374,6 +425,9 @@ class Inliner:
                 if isinstance(st, ast.Return):
                     out.append(self.rebind(s, st.value if st.value is not None else ast.Constant(value=None)))
                     return out, True
+                if isinstance(st, ast.Raise):
+                    out.append(st)
+                    return out, True
                 if isinstance(st, ast.If) and has_ret(st):
                     rest = stmts[i + 1:]
                     b, tb = elim(st.body, False)
@@ -386,6 +440,10 @@ class Inliner:
                         o = o + ro
                     out.append(ast.If(test=st.test, body=b or [ast.Pass()], orelse=o))
                     return out, tb and to
+                if isinstance(st, ast.For) and has_ret(st):
+                    # search loop: `for ..: if c: return e` + REST  ->  `for ..: if c: t = e; break` `else: REST`
+                    out.append(search_loop(st, stmts[i + 1:], tail))
+                    return out, True
                 if has_ret(st):
                     raise Unsupported
                 out.append(st)
@@ -393,6 +451,35 @@ class Inliner:
                 out.append(self.rebind(s, ast.Constant(value=None)))
                 return out, True
             return out, False
+        def search_loop(loop, rest, tail):
+            if not tail:
+                raise Unsupported
+
+            class R(ast.NodeTransformer):
+                def visit_FunctionDef(self_, node):
+                    return node
+
+                def visit_Lambda(self_, node):
+                    return node
+
+                def visit_For(self_, node):
+                    if has_ret(node):
+                        raise Unsupported
+                    return node
+                visit_While = visit_With = visit_Try = visit_For
+
+                def visit_Break(self_, node):
+                    raise Unsupported      # a break of the callee's own would now skip REST
+
+                def visit_Return(self_, node):
+                    e = node.value if node.value is not None else ast.Constant(value=None)
+                    return [self.rebind(s, e), ast.Break()]
+            body_ = []
+            for st in loop.body:
+                r = R().visit(st)
+                body_.extend(r if isinstance(r, list) else [r])
+            rest_, _t = elim(list(loop.orelse) + list(rest), True)
+            return ast.For(target=loop.target, iter=loop.iter, body=body_, orelse=rest_)
         try:
             new, _ = elim(body, True)
         except Unsupported:
